@@ -1,4 +1,5 @@
 import DS.Driver.RollD
+import DS.Driver.VMapD
 open DS.Driver
 
 def dispatch (line : String) : String :=
@@ -7,6 +8,7 @@ def dispatch (line : String) : String :=
   | [] => ""
   | t :: _ =>
     if t ∈ ["rng", "roll", "common", "coc", "fate", "wod", "dc"] then rollLine toks
+    else if t == "vmap" then vmapLine toks
     else "bad-op"
 
 partial def loop (hin : IO.FS.Stream) (hout : IO.FS.Stream) : IO Unit := do
